@@ -110,6 +110,17 @@ class FaultEngine(hist.Engine):
             # a step above the worklist's max_volume (meaningful with auto_split off, where it must
             # raise InvalidOperationError; with auto_split on only aspirate/dispense are affected)
             self.profile = dict(PREFIX_PROFILE, ops={"aspirate": 1})
+            if kind in ("evo_aspirate", "evo_dispense"):
+                # per-tip volume list with the k-th entry above the worklist's max_volume
+                op = self.gen_evo(kind)
+                n = len(op["wells"])
+                vols = flat_f(dec(op["vol"]))
+                vols = [float(v) for v in (vols * n if len(vols) == 1 else vols)]
+                k = rng.randrange(n)
+                vols[k] = self.wlmax + rng.choice([0.01, 1.0, 50.0, self.wlmax])
+                op["vol"] = enc(vols)
+                op["_fault"] = ("oversize", k)
+                return op
             if kind == "transfer":
                 op = self.gen_transfer()
                 arg = "vol"
@@ -271,7 +282,7 @@ class AppendJudge(hist.Monitor):
             ctx.feature("fault_position", f"{op['op']}:k={min(f[1], 12)}")
         # oversized step with auto_split off must raise InvalidOperationError
         wl = eng.case["worklist"]
-        if op["op"] in ("transfer", "aspirate", "dispense") and f and f[0] == "oversize":
+        if op["op"] in ("transfer", "aspirate", "dispense", "evo_aspirate", "evo_dispense") and f and f[0] == "oversize":
             if op["op"] != "transfer" or not wl.get("auto_split", True):
                 ctx.count("oversize_expected_refusal:" + op["op"])
                 ctx.check("oversized_step_is_refused", out.exc is not None, det)
@@ -329,8 +340,8 @@ def gen_case(rng, tier, index):
     fault = {"class": cls, "kind": rng.choice(KINDS if cls == "limit" else ["transfer", "transfer", "aspirate", "dispense", "distribute", "evo_aspirate"])}
     if cls == "invalid":
         fault["invalid"] = rng.choice(["well", "well", "tip", "separator"])
-    if cls == "oversize" and fault["kind"] in ("distribute", "evo_aspirate"):
-        fault["kind"] = "transfer"
+    if cls == "oversize":
+        fault["kind"] = rng.choice(["transfer", "transfer", "aspirate", "dispense", "evo_aspirate", "evo_dispense"])
     return {"worklist": wl, "worktable": wt, "n_ops": 1 + rng.choice([0, 1, 2, 3, 5, 8]), "opseed": rng.getrandbits(48),
             "profile": "fault", "vclass": vclass, "fault": fault, "with_file": rng.random() < 0.34}
 
